@@ -1565,7 +1565,11 @@ package asm
 //@   at invoke:Write:1 assert line == a.lines[rangeindex1+1]
 //@   at invoke:Write:1 assert len(xb) >= 1 && xb[len(xb)-1] == 10
 //@   at invoke:Write:1 assert int(line.asmLineType) == 6 || int(line.asmLineType) >= 8 ==> xb[0] == 47 && xb[1] == 47
-//@   at invoke:Write:1 assert int(line.asmLineType) <= 5 || int(line.asmLineType) == 7 ==> all(j, int, 0 <= j && j < line.byteCount ==> HEXTOK(xb, j, a.code[int(line.address-a.base)+j]))
+//@   at invoke:Write:1 assert int(line.asmLineType) == 7 ==> all(j, int, 0 <= j && j < line.byteCount ==> HEXTOK(xb, j, a.code[int(line.address-a.base)+j]))
+//@   at invoke:Write:1 assert int(line.asmLineType) == 0 ==> line.byteCount == 1 && HEXTOK(xb, 0, a.code[int(line.address-a.base)+0])
+//@   at invoke:Write:1 assert (int(line.asmLineType) == 1 || int(line.asmLineType) == 2) ==> line.byteCount == 2 && HEXTOK(xb, 0, a.code[int(line.address-a.base)+0]) && HEXTOK(xb, 1, a.code[int(line.address-a.base)+1])
+//@   at invoke:Write:1 assert (int(line.asmLineType) == 3 || int(line.asmLineType) == 4) ==> line.byteCount == 3 && HEXTOK(xb, 0, a.code[int(line.address-a.base)+0]) && HEXTOK(xb, 1, a.code[int(line.address-a.base)+1]) && HEXTOK(xb, 2, a.code[int(line.address-a.base)+2])
+//@   at invoke:Write:1 assert int(line.asmLineType) == 5 ==> line.byteCount == 4 && HEXTOK(xb, 0, a.code[int(line.address-a.base)+0]) && HEXTOK(xb, 1, a.code[int(line.address-a.base)+1]) && HEXTOK(xb, 2, a.code[int(line.address-a.base)+2]) && HEXTOK(xb, 3, a.code[int(line.address-a.base)+3])
 //@   at invoke:Write:1 assert int(line.asmLineType) <= 5 ==> xb[24] == 47 && xb[25] == 47 && all(j, int, 6*line.byteCount-1 <= j && j < 24 ==> xb[j] == 32)
 //@   at invoke:Write:1 assert int(line.asmLineType) == 7 ==> len(xb) == 6*line.byteCount
 
